@@ -665,6 +665,19 @@ func init() {
 							res.Violate("indel:binary-differs", fmt.Sprintf("real binary: pattern %s reported %v expected %v", p, g, want), c05Case{p, "msa"})
 						}
 					}
+					// the flag layer with a window: each bound alone and both (indels at positions 0 and L included)
+					nref := nrefOf(pats[0])
+					for _, w := range [][2]int{{0, nref}, {0, 1}, {1, 0}, {2, 0}, {1, nref}} {
+						o := call
+						o.Start, o.End = w[0], w[1]
+						ow, _ := o.CLI(nil, 0)
+						oi := o.Canon()
+						res.Evals++
+						res.Validated++
+						if ow.String() != oi.String() {
+							res.Violate("indel:binary-differs", fmt.Sprintf("real binary with --start %d --end %d (0 = not given) on reference row %s: %s; in-process: %s", w[0], w[1], refRow, firstDiff(ow.Out, oi.Out), oi.Err), c05Case{pats[0], "msa"})
+						}
+					}
 				}
 			}
 			return res
